@@ -130,35 +130,58 @@ func TestVerifC02Yamux(t *testing.T) {
 		// window consumed) cannot, and returns its bytes together with a timeout; the reader
 		// extends the deadline and reads on.  Everything must arrive exactly once, in order.
 		if i%3 == 0 {
-			x, err := ca.OpenStream(context.Background())
+			// over a synchronous pipe, so that the window update really cannot be sent
+			pa, pb := net.Pipe()
+			type res struct {
+				s   network.MuxedStream
+				err error
+			}
+			opened := make(chan res, 1)
+			go func() {
+				c, err := DefaultTransport.NewConn(pa, false, nil)
+				if err != nil {
+					opened <- res{nil, err}
+					return
+				}
+				x, err := c.OpenStream(context.Background())
+				opened <- res{x, err}
+			}()
+			srv, err := DefaultTransport.NewConn(pb, true, nil)
 			if err != nil {
 				t.Fatal(err)
 			}
-			if _, err := x.Write([]byte{0xEE}); err != nil {
-				t.Fatal(err)
+			ro := <-opened
+			if ro.err != nil {
+				t.Fatal(ro.err)
 			}
-			y, err := cb.AcceptStream()
-			if err != nil {
-				t.Fatal(err)
-			}
-			one := make([]byte, 1)
-			if _, err := y.Read(one); err != nil || one[0] != 0xEE {
-				t.Fatalf("marker: %v %v", err, one)
-			}
-			x.SetDeadline(time.Now().Add(60 * time.Second))
+			x := ro.s
 			tot := 140000 + r.Intn(100000) // more than half the 256 kB window, less than the window
 			wl := []int{tot}
 			bl := []int{1 + r.Intn(8192), 4096}
-			line := verifh.StreamCaseRetry(5, 200, r.Intn(1<<19), wl, bl, x, x.CloseWrite, y, 50*time.Second,
+			var y network.MuxedStream
+			line := verifh.StreamCaseRetry(5, 200, r.Intn(1<<19), wl, bl, x, x.CloseWrite, yamuxLazy{&y}, 50*time.Second,
 				func() {
+					var err error
+					y, err = srv.AcceptStream()
+					if err != nil {
+						t.Fatal(err)
+					}
 					time.Sleep(300 * time.Millisecond) // let the data land in the receive buffer
 					y.SetReadDeadline(time.Now().Add(-time.Second))
 				},
 				func() { y.SetReadDeadline(time.Now().Add(30 * time.Second)) })
 			out.Case(line)
 			out.Cover("yamux.reads_after_expired_deadline")
+			srv.Close()
+			pa.Close()
+			pb.Close()
 		}
 		ca.Close()
 		cb.Close()
 	}
 }
+
+// yamuxLazy reads from a stream that is accepted only once the writer has started
+type yamuxLazy struct{ s *network.MuxedStream }
+
+func (l yamuxLazy) Read(b []byte) (int, error) { return (*l.s).Read(b) }
